@@ -71,6 +71,9 @@ def c11_roundtrip(E, formats=FORMATS):
         m.metabolites.B.charge = E.pick("charge_B", [None, 0, -2])
         m.metabolites.B.formula = E.pick("formula_B", [None, "", "H2O"])
         m.notes = {"k": "v"}
+        # values of every JSON kind inside the free-form containers, None included, at top level and nested
+        m.reactions.R2.notes = {"confidence": None, "references": ["pmid:1", None], "nested": {"a": None, "b": [1, 2.5, True]}}
+        m.metabolites.B.annotation = {"kegg": ["C2", "C3"], "pairs": [["is", "x"], ["isVersionOf", "y"]]}
         m.genes.g1.name = "gene one"
         m.genes.g1.annotation = {"ncbi": ["1"]}
         fmt = E.pick("format", list(formats))
